@@ -460,7 +460,12 @@ func (u *Unmarshaler) processAnonymousFieldOptional(fieldType reflect.Type, valu
 			return err
 		}
 
-		_, hasValue := getValue(m, fieldKey)
+		canonicalKey := fieldKey
+		if u.opts.canonicalKey != nil {
+			canonicalKey = u.opts.canonicalKey(fieldKey)
+		}
+
+		_, hasValue := getValue(m, canonicalKey)
 		if hasValue {
 			if !filled {
 				filled = true
